@@ -1,8 +1,11 @@
 (* C07 — packrat guarantee: a rule is evaluated at most once per position.
    MODEL Run.v: _run (translator.py:654-681) as a machine over abstract rule
-   bodies (interaction trees): state = (stack of suspended generators, memo,
-   value being sent, log of body starts); one step = one iteration of the
-   `while stack` loop (send; then pop+store / memo hit / push).
+   bodies (interaction trees): state = (stack of suspended generators each with
+   its memo key or None, memo, value being sent, log of memoised body starts,
+   number of unkeyed starts); one step = one iteration of the `while stack`
+   loop (send; then pop+store-if-keyed / memo hit / push).  A call whose key
+   cannot be hashed (unhashable argument of a parameterised rule, CallU) runs in
+   a frame with key None: never stored, never looked up.
    Tied to /repo by harness/props/c07.py: the REAL _run is driven with scripted
    generator functions and compared with the extracted machine (log, result). *)
 From Coq Require Import List Arith Bool.
@@ -14,18 +17,20 @@ Require Import Run.
    value of direct evaluation, and a memo hit replays that value *)
 Theorem C07_memo_transparent : forall (value : Type) (body : key -> comp value) (dummy : triple value) n start_key r,
   eval value body n start_key = Some r ->
-  exists j m' lg', steps value body dummy j (MS value [(start_key, fun _ => body start_key)] (fun _ => None) dummy [start_key])
-                   = MS value [] m' r lg' /\ memo_ok value body m'.
+  exists j m' lg' u', steps value body dummy j (MS value [(Some start_key, fun _ => body start_key)] (fun _ => None) dummy [start_key] 0)
+                   = MS value [] m' r lg' u' /\ memo_ok value body m'.
 Proof. exact run_transparent. Qed.
 Print Assumptions C07_memo_transparent.
 
 (* at most once: under the exact no-left-recursion hypothesis (a rank on keys
    that every call strictly decreases) the log of body starts never contains a
-   key twice, after any number of steps *)
+   key twice, after any number of steps - also when some calls go through
+   unkeyed frames (calls made inside an unkeyed frame count against the rule
+   that made the unkeyed call) *)
 Theorem C07_at_most_once : forall (value : Type) (body : key -> comp value) (dummy : triple value) (R : key -> nat),
   (forall k, calls_lt value R (R k) (body k)) ->
   forall j k0, NoDup (log value (steps value body dummy j
-                 (MS value [(k0, fun _ => body k0)] (fun _ => None) dummy [k0]))).
+                 (MS value [(Some k0, fun _ => body k0)] (fun _ => None) dummy [k0] 0))).
 Proof. exact at_most_once. Qed.
 Print Assumptions C07_at_most_once.
 
@@ -36,9 +41,18 @@ Proof. exact eval_bound. Qed.
 Print Assumptions C07_bound.
 
 (* non-vacuity: a diamond  S -> A B ; A -> C ; B -> C  evaluates C once *)
-Definition ex_scr : list (key * list key) :=
-  [((0, 0), [(1, 0); (2, 0)]); ((1, 0), [(3, 0)]); ((2, 0), [(3, 0)]); ((3, 0), [])].
+Definition ex_scr : list (key * list call) :=
+  [((0, 0), [CK (1, 0); CK (2, 0)]); ((1, 0), [CK (3, 0)]); ((2, 0), [CK (3, 0)]); ((3, 0), [])].
 Example C07_diamond :
-  let '(s, fin) := run_script ex_scr 50 (0, 0) in
+  let '(s, fin) := run_script ex_scr 3 50 (0, 0) in
   fin = true /\ cur nat s = (true, 5, 0) /\ rev (log nat s) = [(0, 0); (1, 0); (3, 0); (2, 0)].
+Proof. vm_compute. auto. Qed.
+
+(* the same diamond where S reaches A and B through unhashable keys: A and B are started
+   unkeyed (twice, never logged or stored), C is still evaluated once *)
+Definition ex_scr_u : list (key * list call) :=
+  [((0, 0), [CU (1, 0); CU (2, 0); CU (1, 0)]); ((1, 0), [CK (3, 0)]); ((2, 0), [CK (3, 0)]); ((3, 0), [])].
+Example C07_diamond_unkeyed :
+  let '(s, fin) := run_script ex_scr_u 3 50 (0, 0) in
+  fin = true /\ cur nat s = (true, 7, 0) /\ rev (log nat s) = [(0, 0); (3, 0)] /\ ustarts nat s = 3.
 Proof. vm_compute. auto. Qed.
